@@ -36,6 +36,7 @@ type inode struct {
 	logStore *raftstore.LevelDBStore
 	fss      raft.SnapshotStore
 	h        *api.HTTP
+	raft     *raft.Raft
 }
 
 // nodeJSON: the node runs with -pre1.0_protobuf=false (legacy JSON encoding of log entries,
@@ -99,6 +100,7 @@ func startNode(dir string, bootstrap bool) (*inode, error) {
 	}
 	n.h = api.NewHTTP(ircServer, node, ircStore, outputStream, &rafthttp.HTTPTransport{}, *network, nodePassword, dir, "n1", !nodeJSON, 3)
 	n.fsm.ReplaceState = n.h.ReplaceState
+	n.raft = node
 	return n, nil
 }
 
